@@ -693,3 +693,76 @@ def crosscheck_all(seed=0, maxlen=3, samples=300):
                 raise AnalysisError('automata cross-check failed: pattern %r, string %r: re says %s, NFA says %s'
                                     % (pattern, s, want, got))
     return {'patterns': len(seen), 'strings': n_strings}
+
+
+# ---------------------------------------------------------------------------
+# regex source reconstruction from parsed items (to hand sub-patterns on as text)
+# ---------------------------------------------------------------------------
+def _esc(c, in_class=False):
+    ch = chr(c)
+    if ch in ('\n', '\r', '\t', '\f', '\v'):
+        return {'\n': '\\n', '\r': '\\r', '\t': '\\t', '\f': '\\f', '\v': '\\v'}[ch]
+    if in_class:
+        return '\\' + ch if ch in '\\]^-[' else ch
+    return '\\' + ch if ch in '\\.^$*+?{}[]|()#' else ch
+
+
+def _cat_src(av):
+    return {'CATEGORY_DIGIT': r'\d', 'CATEGORY_NOT_DIGIT': r'\D', 'CATEGORY_SPACE': r'\s', 'CATEGORY_NOT_SPACE': r'\S',
+            'CATEGORY_WORD': r'\w', 'CATEGORY_NOT_WORD': r'\W'}[str(av)]
+
+
+def items_source(items):
+    """Regex source text for a list of (op, av) items (groups become non-capturing)."""
+    out = []
+    for op, av in items:
+        if op is sc.LITERAL:
+            out.append(_esc(av))
+        elif op is sc.NOT_LITERAL:
+            out.append('[^%s]' % _esc(av, True))
+        elif op is sc.ANY:
+            out.append('.')
+        elif op is sc.IN:
+            s = ''
+            for o2, a2 in av:
+                if o2 is sc.NEGATE:
+                    s += '^'
+                elif o2 is sc.LITERAL:
+                    s += _esc(a2, True)
+                elif o2 is sc.RANGE:
+                    s += '%s-%s' % (_esc(a2[0], True), _esc(a2[1], True))
+                elif o2 is sc.CATEGORY:
+                    s += _cat_src(a2)
+                else:
+                    raise AnalysisError('cannot print character-class item %s' % (o2,))
+            out.append('[%s]' % s)
+        elif op is sc.BRANCH:
+            out.append('(?:%s)' % '|'.join(items_source(a) for a in av[1]))
+        elif op is sc.SUBPATTERN:
+            out.append('(?:%s)' % items_source(av[3]))
+        elif op in (sc.MAX_REPEAT, sc.MIN_REPEAT):
+            lo, hi, sub = av
+            inner = items_source(sub)
+            if len(sub) != 1 or sub[0][0] in (sc.BRANCH,) or (sub[0][0] is sc.LITERAL and len(inner) > 2):
+                inner = '(?:%s)' % inner
+            elif sub[0][0] not in (sc.IN, sc.LITERAL, sc.ANY, sc.SUBPATTERN, sc.NOT_LITERAL):
+                inner = '(?:%s)' % inner
+            if (lo, hi) == (0, sc.MAXREPEAT):
+                q = '*'
+            elif (lo, hi) == (1, sc.MAXREPEAT):
+                q = '+'
+            elif (lo, hi) == (0, 1):
+                q = '?'
+            elif hi == sc.MAXREPEAT:
+                q = '{%d,}' % lo
+            else:
+                q = '{%d,%d}' % (lo, hi)
+            out.append(inner + q + ('?' if op is sc.MIN_REPEAT else ''))
+        elif op is sc.AT:
+            out.append({sc.AT_END: '$', sc.AT_END_STRING: r'\Z', sc.AT_BEGINNING: '^', sc.AT_BEGINNING_STRING: r'\A'}[av])
+        elif op in (sc.ASSERT, sc.ASSERT_NOT):
+            direction, sub = av
+            out.append('(?%s%s%s)' % ('<' if direction < 0 else '', '=' if op is sc.ASSERT else '!', items_source(sub)))
+        else:
+            raise AnalysisError('cannot print regex construct %s' % (op,))
+    return ''.join(out)
